@@ -2,8 +2,12 @@ import GrcovModel.Drv.Merge
 import GrcovModel.Drv.Lcov
 import GrcovModel.Drv.Pipeline
 import GrcovModel.Drv.Confine
+import GrcovModel.Drv.C19Dest
 import GrcovModel.Drv.LlvmTools
 import GrcovModel.Drv.Writers
+import GrcovModel.Drv.C03CobAde
+import GrcovModel.Drv.C20Consumer
+import GrcovModel.Drv.C03Docs
 open Grcov.Drv
 
 def step (line : String) : String :=
@@ -17,9 +21,26 @@ def step (line : String) : String :=
   | "pipe.stuck" :: args => handlePipeStuck args
   | "confine.enclosed" :: args => handleEnclosed args
   | "confine.plain" :: args => handlePlain args
+  | "confine.dest.ext" :: args => handleDestExt args
+  | "confine.dest.html" :: args => handleDestHtml args
+  | "confine.dest.run" :: args => handleDestRun args
+  | "confine.dest.gcov" :: args => handleDestGcov args
+  | "confine.dest.outfile" :: args => handleDestOutFile args
   | "llvm.model" :: args => handleLlvmModel args
   | "c03.covdir" :: args => handleCovdirArray args
   | "c03.html" :: args => handleHtmlCounts args
+  | "c03.cob.tree" :: args => Grcov.Drv.CobAde.handleCobTree args
+  | "c03.cob.stem" :: args => Grcov.Drv.CobAde.handleCobStem args
+  | "c03.ade" :: args => Grcov.Drv.CobAde.handleAde args
+  | "c20.cons.run" :: args => handleConsRun args
+  | "c20.cons.version" :: args => handleConsVersion args
+  | "c20.cons.argv" :: args => handleConsArgv args
+  | "c20.cons.findbin" :: args => handleConsFindBin args
+  | "c03.docs.coveralls" :: args => handleDocsCoveralls args
+  | "c03.docs.covdir" :: args => handleDocsCovdir args
+  | "c03.docs.markdown" :: args => handleDocsMarkdown args
+  | "c03.docs.files" :: args => handleDocsFiles args
+  | "c03.docs.html" :: args => handleDocsHtml args
   | _ => "bad-op"
 
 partial def loop (h : IO.FS.Stream) (out : IO.FS.Stream) : IO Unit := do
